@@ -99,6 +99,12 @@ type Arr struct {
 	IsArray bool
 }
 
+// List is an array or slice of non-integer values (functions).
+type List struct {
+	E       []Val
+	IsArray bool
+}
+
 type Str struct{ S string }
 
 type Bool struct{ B bool }
@@ -525,9 +531,21 @@ func (ev *Evaluator) Eval(env *Env, e ast.Expr) Val {
 		case Bytes:
 			return Int{V: uint64(x.B[ev.asIndex(i, len(x.B), "index expression")]), K: KUint8}
 		case Arr:
-			return x.E[ev.asIndex(i, len(x.E), "index expression")]
+			idx := ev.asIndex(i, len(x.E), "index expression")
+			if !symx.IsConcrete(idx) && len(x.E) > 0 {
+				// symbolic index: merge the elements instead of forking
+				m := x.E[len(x.E)-1]
+				for k := len(x.E) - 2; k >= 0; k-- {
+					m.V = uint64(symx.Ite(idx == k, int(x.E[k].V), int(m.V)))
+				}
+				m.Const = false
+				return m
+			}
+			return x.E[idx]
 		case Str:
 			return Int{V: uint64(x.S[ev.asIndex(i, len(x.S), "index expression")]), K: KUint8}
+		case List:
+			return x.E[symx.Concretize(ev.asIndex(i, len(x.E), "index expression"))]
 		}
 		ev.fail("cannot index %T", x)
 	case *ast.SliceExpr:
@@ -652,7 +670,25 @@ func (ev *Evaluator) compositeLit(env *Env, e *ast.CompositeLit) Val {
 	case *ast.ArrayType:
 		k, ok := ev.typeKind(t.Elt)
 		if !ok {
-			ev.fail("unsupported composite literal element type")
+			if _, isFn := t.Elt.(*ast.FuncType); !isFn {
+				ev.fail("unsupported composite literal element type")
+			}
+			l := List{IsArray: t.Len != nil}
+			for _, el := range e.Elts {
+				l.E = append(l.E, ev.Eval(env, el))
+			}
+			if t.Len != nil {
+				if _, isEll := t.Len.(*ast.Ellipsis); !isEll {
+					n := int(symx.Concretize(int(ev.Eval(env, t.Len).(Int).V)))
+					if len(l.E) > n {
+						ev.fail("compile error: array literal has %d elements, type has %d", len(l.E), n)
+					}
+					for len(l.E) < n {
+						l.E = append(l.E, (*Func)(nil))
+					}
+				}
+			}
+			return l
 		}
 		elems := make([]Int, 0, len(e.Elts))
 		for _, el := range e.Elts {
@@ -745,6 +781,24 @@ func (ev *Evaluator) assignable(v Val, t ast.Expr, what string) Val {
 			ev.fail("compile error: cannot use %s as %s in %s", iv.K, k, what)
 		}
 		return Int{V: iv.V, K: k}
+	}
+	// array types must agree in length
+	if at, ok := t.(*ast.ArrayType); ok && at.Len != nil {
+		if _, isEll := at.Len.(*ast.Ellipsis); !isEll {
+			n := int(symx.Concretize(int(ev.Eval(NewEnv(nil), at.Len).(Int).V)))
+			switch a := v.(type) {
+			case Arr:
+				if !a.IsArray || len(a.E) != n {
+					ev.fail("compile error: cannot use array of length %d as [%d]T in %s", len(a.E), n, what)
+				}
+			case List:
+				if !a.IsArray || len(a.E) != n {
+					ev.fail("compile error: cannot use array of length %d as [%d]T in %s", len(a.E), n, what)
+				}
+			default:
+				ev.fail("compile error: cannot use %T as array in %s", v, what)
+			}
+		}
 	}
 	return copyVal(v)
 }
@@ -874,6 +928,42 @@ func (ev *Evaluator) call(env *Env, e *ast.CallExpr) Val {
 					return Int{V: uint64(copy(dst.B, src.S)), K: KInt}
 				}
 				ev.fail("copy from unsupported value")
+			}
+		}
+	}
+	// call through a table of functions with a symbolic index: evaluate every
+	// candidate and merge the integer results instead of forking
+	if ix, ok := e.Fun.(*ast.IndexExpr); ok {
+		if tbl, ok := ev.Eval(env, ix.X).(List); ok {
+			iv, isInt := ev.Eval(env, ix.Index).(Int)
+			if isInt && !symx.IsConcrete(iv.V) && len(tbl.E) > 0 {
+				ev.asIndex(iv, len(tbl.E), "function table index")
+				args := make([]Val, len(e.Args))
+				for i, a := range e.Args {
+					args[i] = ev.Eval(env, a)
+				}
+				var merged Int
+				for k := len(tbl.E) - 1; k >= 0; k-- {
+					f, ok := tbl.E[k].(*Func)
+					if !ok || f == nil {
+						ev.fail("call of nil function in table")
+					}
+					res := ev.CallFunc(f, args)
+					if len(res) != 1 {
+						ev.fail("table function must return one value")
+					}
+					ri, ok := res[0].(Int)
+					if !ok {
+						ev.fail("table function must return an integer")
+					}
+					if k == len(tbl.E)-1 {
+						merged = ri
+					} else {
+						merged.V = uint64(symx.Ite(iv.V == uint64(k), int(ri.V), int(merged.V)))
+					}
+				}
+				merged.Const = false
+				return merged
 			}
 		}
 	}
